@@ -524,14 +524,14 @@ def load_database(dbpath, rootdir):
             if os.path.isabs(command.directory):
                 filedir = command.directory
             else:
-                filedir = os.path.abspath(
+                filedir = util.abspath(
                     os.path.join(rootdir, command.directory),
                 )
 
         if os.path.isabs(command.filename):
-            path = os.path.abspath(command.filename)
+            path = util.abspath(command.filename)
         else:
-            path = os.path.abspath(os.path.join(filedir, command.filename))
+            path = util.abspath(os.path.join(filedir, command.filename))
 
         # Skip files that don't exist.
         # (e.g., because they're generated by running make)
@@ -554,7 +554,7 @@ def load_database(dbpath, rootdir):
             # Include paths may be specified relative to the directory
             # the command runs in (which defaults to root)
             entry["include_paths"] = [
-                os.path.abspath(os.path.join(filedir, f))
+                util.abspath(os.path.join(filedir, f))
                 for f in entry["include_paths"]
             ]
 
@@ -562,7 +562,7 @@ def load_database(dbpath, rootdir):
             # the command runs in before it searches the include paths.
             entry["include_files"] = [
                 (
-                    os.path.abspath(os.path.join(filedir, f))
+                    util.abspath(os.path.join(filedir, f))
                     if os.path.isfile(os.path.join(filedir, f))
                     else f
                 )
